@@ -430,10 +430,27 @@ func (ws *WatchingSource) updateDirWatches(oldResolvedCfgDir, resolvedCfgDir str
 			resolvedCfgDir, addErr)
 		return
 	}
+	// The directory that holds the config path itself stays watched for the
+	// whole life of the watcher: a rename over the config shows up there,
+	// wherever the config currently points.
+	if ws.isCfgDir(oldResolvedCfgDir) {
+		return
+	}
 	if removeErr := ws.watcher.Remove(oldResolvedCfgDir); removeErr != nil {
 		ws.logger.Printf("failed to remove old watch for old symlink-resolved directory: %q: %s",
 			oldResolvedCfgDir, removeErr)
 	}
+}
+
+// isCfgDir reports whether dir is the directory of the config path (as
+// given, or with its own symlinks resolved).
+func (ws *WatchingSource) isCfgDir(dir string) bool {
+	cfgDir := filepath.Dir(filepath.Clean(ws.path))
+	if dir == cfgDir {
+		return true
+	}
+	resolved, err := filepath.EvalSymlinks(cfgDir)
+	return err == nil && dir == resolved
 }
 
 // StdLogger is an interface satisified by several logging types, including the
